@@ -68,10 +68,7 @@ func UnmarshalTestAuth(bytes []byte) (chain.Auth, error) {
 		return nil, fmt.Errorf("unexpected test auth typeID: %d != %d", bytes[0], TestAuthTypeID)
 	}
 
-	if err := codec.LinearCodec.UnmarshalFrom(
-		&wrappers.Packer{Bytes: bytes[1:]},
-		t,
-	); err != nil {
+	if err := codec.UnmarshalExact(bytes[1:], t); err != nil {
 		return nil, err
 	}
 	return t, nil
